@@ -277,3 +277,87 @@ def sample_view(spec):
 PARTS = {"meta": {"strategy": spec_meta, "check": check_meta, "examples": {"quick": 3000, "thorough": 60000}, "sample": sample_view}}
 REQUIRED_STRATA = {"all": ["meta:grids", "meta:nogrids", "meta:wt", "meta:sig", "meta:per", "meta:keep", "meta:expand", "meta:gf",
                            "meta:offgrid_after_edge_hill", "meta:mixed_tabulated_untabulated", "meta:grid_expanded", "meta:nv2"]}
+
+
+# ------------------------------------------------------------------------------------------------------------
+# non-scalar variable without grids
+
+@st.composite
+def spec_vec(draw, tier):
+    T = draw(st.integers(5, 24))
+    cur = [rnd(draw(fl(-2, 2)), 3) for _ in range(3)]
+    steps = []
+    for t in range(T):
+        cur = [rnd(c + draw(fl(-0.6, 0.6)), 3) for c in cur]
+        steps.append(list(cur))
+    return {"steps": steps, "nf": draw(st.integers(1, 4)), "W": rnd(draw(fl(0.05, 2.0)), 3), "hw": draw(st.sampled_from([1.0, 2.0, 3.0])),
+            "width": draw(st.sampled_from([0.25, 0.5, 1.0])), "wt": draw(st.integers(0, 2)) == 0, "biastemp": rnd(draw(fl(200, 3000)), 0),
+            "unit": draw(st.integers(0, 2)) == 0, "newrun": draw(st.integers(1, T - 1)) if draw(st.integers(0, 2)) == 0 else None,
+            "szd": draw(st.integers(0, 3)) == 0}
+
+
+def check_vec(spec, ctx):
+    comp = "distanceDir" if spec["unit"] else "distanceVec"
+    cfg = ("colvar {\n  name v\n  width %s\n  %s {\n    group1 { dummyAtom (0, 0, 0) }\n    group2 { atomNumbers 1 }\n  }\n}\n" % (fmt(spec["width"]), comp))
+    m = ["metadynamics {", "  name meta", "  colvars v", "  hillWeight %s" % fmt(spec["W"]), "  newHillFrequency %d" % spec["nf"],
+         "  hillWidth %s" % fmt(spec["hw"]), "  useGrids off"]
+    if spec["wt"]:
+        m += ["  wellTempered on", "  biasTemperature %s" % fmt(spec["biastemp"])]
+    if spec["szd"]:
+        m.append("  stepZeroData on")
+    m.append("}")
+    L = cvz.header(2, 0, temperature=300.0) + ["config <<END\n%s%s\nEND" % (cfg, "\n".join(m))]
+    ev = []
+    for t, x in enumerate(spec["steps"]):
+        if spec["newrun"] == t:
+            L += ["newrun", "step"]
+            ev.append((t - 1, True))
+        L.append("pos " + " ".join(fnum(c) for c in x + [0.5, 0.5, 0.5]))
+        L.append("step")
+        ev.append((t, False))
+    case = "\n".join(L) + "\n"
+    r = run_case(case)
+    if r.crashed or r.of("config")[0]["rc"] != 0:
+        return Outcome(False, msg="crash/rejected %s %s" % (r.stderr[-300:], r.of("config")[:1]), sig="gen_invalid", case_text=case)
+    sig = spec["hw"] * spec["width"] / 2.0
+    hills = []
+    for (it, cont), s in zip(ev, r.of("step")):
+        if s["errbits"]:
+            return Outcome(False, msg="step error %s" % s["errs"], sig="step_error", case_text=case)
+        x = s["cv"][0]["x"]                  # the variable's own value (a unit vector for distanceDir)
+
+        def d2(a, b):
+            if spec["unit"]:
+                c = max(-1.0, min(1.0, sum(p * q for p, q in zip(a, b))))
+                return math.acos(c) ** 2
+            return sum((p - q) ** 2 for p, q in zip(a, b))
+        can_acc = ((it > 0) and not cont) or spec["szd"]
+        if it % spec["nf"] == 0 and can_acc:
+            scale = 1.0
+            if spec["wt"]:
+                V = sum(h["W"] * math.exp(-0.5 * d2(x, h["c"]) / (sig * sig)) for h in hills)
+                scale = math.exp(-V / (spec["biastemp"] * KB))
+            hills.append({"c": list(x), "W": spec["W"] * scale})
+        E = 0.0
+        for h in hills:
+            s2 = d2(x, h["c"]) / (sig * sig)
+            if s2 <= 23.0:
+                E += h["W"] * math.exp(-0.5 * s2)
+        got = s["bias"][0]["E"]
+        tol = 1e-9 * max(1.0, abs(E)) + 2e-5 * sum(h["W"] for h in hills)
+        if abs(got - E) > tol:
+            return Outcome(False, msg="step %d (%d hills) %s variable: bias energy %r, sum of the hills %r" % (it, len(hills), comp, got, E),
+                           sig="vec_energy", case_text=case)
+        if not spec["unit"]:
+            F = [sum(h["W"] * math.exp(-0.5 * d2(x, h["c"]) / (sig * sig)) * (x[k] - h["c"][k]) / (sig * sig) for h in hills
+                     if d2(x, h["c"]) / (sig * sig) <= 23.0) for k in range(3)]
+            gf = s["cv"][0]["f"]
+            if any(abs(a - b) > 1e-9 * max(1.0, abs(b)) + 2e-4 * sum(h["W"] for h in hills) / sig for a, b in zip(gf, F)):
+                return Outcome(False, msg="step %d (%d hills): force on the vector variable %r, gradient of the hills %r" % (it, len(hills), gf, F),
+                               sig="vec_force", case_text=case)
+    return Outcome(True, nontrivial=len(hills) >= 3, cls=("vec", comp, "wt" if spec["wt"] else ""), strata=["vec:" + comp] + (["vec:wt"] if spec["wt"] else []),
+                   case_text=case)
+
+
+PARTS["vector"] = {"strategy": spec_vec, "check": check_vec, "examples": {"quick": 1000, "thorough": 16000}, "sample": lambda s_: {k: v for k, v in s_.items() if k != "steps"}}
+REQUIRED_STRATA["all"] = REQUIRED_STRATA["all"] + ["vector:vec:distanceVec", "vector:vec:distanceDir", "vector:vec:wt"]
